@@ -31,6 +31,12 @@ def AnswersOwn (tbl : List (α × α)) (e : Entry α) (l : Line α) : Prop :=
 instance (tbl : List (α × α)) (e : Entry α) (l : Line α) : Decidable (AnswersOwn tbl e l) := by
   unfold AnswersOwn; exact inferInstance
 
+/-- no caller is woken without a reply - and no entry is on its way to that - unless the connection is being shut down
+or was lost: a wake-up without a reply makes `get_reply` raise a connection error, which is in order only then.
+(What an event shared between two entries of one thread would break: the reply to the older entry wakes the wait for
+the newer one.) -/
+def NoSpuriousRelease (s : St α) : Prop := s.closing = false → s.released = [] ∧ s.relHold = []
+
 /-- every caller whose event was set with a reply got a reply that answers its own request -/
 def ReplyMatches (tbl : List (α × α)) (s : St α) : Prop :=
   ∀ p ∈ s.delivered, AnswersOwn tbl p.1 p.2
